@@ -113,7 +113,7 @@ struct SIMDVector<float,simd_abi::avx512> {
                             num0+8.f,num0+9.f,num0+10.f,num0+11.f,num0+12.f,num0+13.f,num0+14.f,num0+15.f);
     }
     FASTOR_INLINE void broadcast(const float *data) {
-        // value = _mm512_broadcast_ss(data);
+        value = _mm512_set1_ps(*data);
     }
 
     // In-place operators
